@@ -7,6 +7,7 @@ import (
 	"math/rand"
 	"sync/atomic"
 	"testing"
+	"time"
 
 	sim "metacontroller/pkg/verifsim"
 )
@@ -41,7 +42,7 @@ type walkStep struct {
 }
 
 func genWalk(rng *rand.Rand, n int) []walkStep {
-	ops := []string{"sync", "sync", "sync", "heal", "heal", "heal-all", "heal-all", "delete", "new-rev", "new-rev", "new-extra", "scale-up", "scale-down", "fail-next-revision-update"}
+	ops := []string{"sync", "sync", "sync", "heal", "heal", "heal-all", "heal-all", "delete", "new-rev", "new-rev", "new-extra", "scale-up", "scale-down", "fail-next-revision-update", "fail-next-hook-call"}
 	var w []walkStep
 	for i := 0; i < n; i++ {
 		st := walkStep{Op: ops[rng.Intn(len(ops))], Child: rng.Intn(6)}
@@ -126,6 +127,21 @@ func runC07Walk(t *testing.T, id string, cfg rolloutCfg, walk []walkStep) {
 			}
 		case "scale-down":
 			ro.scale(-1)
+		case "fail-next-hook-call":
+			// one of the (possibly parallel, per-revision) hook calls of the next sync fails at once;
+			// its siblings answer a little later
+			var fired int32
+			ro.r.w.hooks.SetOverride(func(call *sim.HookCall) *sim.HookResponse {
+				if call.Path != "sync" && call.Path != "finalize" {
+					return nil
+				}
+				if atomic.CompareAndSwapInt32(&fired, 0, 1) {
+					return &sim.HookResponse{Status: 500, Body: []byte("boom")}
+				}
+				time.Sleep(120 * time.Millisecond)
+				return nil
+			})
+			ro.r.w.q.Add(ro.sc.parentKey())
 		case "fail-next-revision-update":
 			// an interrupted revision bookkeeping (the add to the latest revision is accepted, the
 			// removal from the old one is not) leaves a child named by two revisions
@@ -143,6 +159,7 @@ func runC07Walk(t *testing.T, id string, cfg rolloutCfg, walk []walkStep) {
 			inconclusive(t, "C07", id, ro.r.w.watchdog)
 			return
 		}
+		ro.r.w.hooks.SetOverride(nil)
 	}
 	rep.Counter("C07", "syncs_judged", int64(ro.syncs))
 	rep.Counter("C07", "moves_observed", int64(ro.moves))
